@@ -53,14 +53,34 @@ def fmt(trace):
     return ",".join(f"{harness.hx(b)}/{';'.join(harness.hx(p) for p in pk)}" for b, pk in trace)
 
 
-def valid_packet(rnd):
+def valid_packet(rnd, cs=None):
+    """a valid packet without a marker inside; `cs`: with this checksum byte (0xaa: its last byte is half a marker)"""
     from nmea2000.utils import calculate_canbus_checksum
     while True:
         body = bytes([0xaa, 0x55, 1, 2, 1]) + bytes(rnd.choice([0xaa, 0x55, rnd.getrandbits(8)]) for _ in range(4)) + bytes([8]) + \
             bytes(rnd.choice([0xaa, 0x55, 0, rnd.getrandbits(8)]) for _ in range(8)) + b"\x00"
         p = body + bytes([calculate_canbus_checksum(body)])
-        if b"\xaa\x55" not in p[1:]:
+        if b"\xaa\x55" not in p[1:] and (cs is None or p[19] == cs):
             return p
+
+
+def false_window(s, pk):
+    """is there a 20-byte window behind a marker that passes the checksum without being one of the stream's packets?  (the hypothesis of
+    C20_resync_none: such a coincidence is a packet as far as any receiver can tell, and what it swallows is lost)"""
+    from nmea2000.utils import calculate_canbus_checksum
+    starts, pos = set(), 0
+    for p in pk:
+        i = s.find(p, pos)
+        if i >= 0:
+            starts.add(i)
+            pos = i + len(p)
+    i = s.find(b"\xaa\x55")
+    while i >= 0:
+        w = s[i:i + 20]
+        if len(w) == 20 and i not in starts and calculate_canbus_checksum(w) == w[19]:
+            return True
+        i = s.find(b"\xaa\x55", i + 1)
+    return False
 
 
 def gen_stream(rnd):
@@ -174,13 +194,19 @@ def search(ctx, broken, corr_broken):
     n = 0
     for trial in range(1500):
         n += 1
-        pk = [valid_packet(rnd) for _ in range(rnd.choice([1, 2, 3]))]
-        kind = rnd.choice(["markerfree", "anynoise", "corrupt", "bound"])
+        pk = [valid_packet(rnd, 0xaa if rnd.random() < 0.3 else None) for _ in range(rnd.choice([1, 2, 3]))]
+        kind = rnd.choice(["markerfree", "anynoise", "corrupt", "bound", "cascade"])
         if kind == "markerfree":
             s = b""
             for p in pk:
                 noise = bytes(rnd.choice([0x11, 0x55, 0x00]) for _ in range(rnd.randrange(0, 25))) + (b"\xaa" if rnd.random() < 0.4 else b"")
+                if rnd.random() < 0.35:
+                    # marker-free noise that looks like a packet which lost its first byte(s): 55 01 02 01 ... (behind a packet whose
+                    # checksum byte is aa the junction reads like a marker and a frame header)
+                    noise = b"\x55\x01\x02\x01" + bytes(rnd.choice([0x11, 0x00, 0x01, 0x02, 0x08, 0x55]) for _ in range(rnd.randrange(0, 16)))
                 s += noise + p
+            if false_window(s, pk):
+                continue
             reads = segment(rnd, s)
             got, mx = _deliveries(reads)
             if got != pk:
@@ -191,6 +217,25 @@ def search(ctx, broken, corr_broken):
             got, mx = _deliveries(reads)
             if got[-(len(pk) - 1):] != pk[1:] and len(pk) > 1:
                 return [_v("resync", reads, f"more than the first packet lost after noise: delivered tail {len(got)}", pk)]
+        elif kind == "cascade":
+            # a packet that lost bytes on the wire (it still starts with the marker: the packet behind it may be lost), then packets
+            # separated by marker-free noise: everything from the second packet on must be delivered
+            d = bytearray(valid_packet(rnd))
+            for _ in range(rnd.choice([1, 1, 2, 4])):
+                del d[rnd.randrange(5, len(d))]
+            while len(pk) < 3:
+                pk.append(valid_packet(rnd, 0xaa if rnd.random() < 0.5 else None))
+            s = bytes(d) + pk[0]
+            for p in pk[1:]:
+                noise = rnd.choice([b"", b"\x55\x01\x02\x01" + bytes(rnd.choice([0x11, 0x00, 0x01, 0x02, 0x08, 0x55]) for _ in range(rnd.randrange(0, 16))),
+                                    bytes(rnd.choice([0x11, 0x55, 0x00]) for _ in range(rnd.randrange(0, 25)))])
+                s += noise + p
+            if false_window(s, pk):
+                continue
+            reads = segment(rnd, s)
+            got, mx = _deliveries(reads)
+            if got[-(len(pk) - 1):] != pk[1:]:
+                return [_v("resync", reads, f"a damaged packet cost more than the packet right behind it: delivered {len(got)} of the {len(pk)} intact packets, and not the last {len(pk) - 1}", pk)]
         elif kind == "corrupt":
             p = bytearray(pk[0]); i = rnd.randrange(2, 20); p[i] ^= rnd.randrange(1, 256)
             reads = segment(rnd, bytes(p))
